@@ -354,6 +354,20 @@ func finalDumpsDiffer(rr *RunResult) string {
 	return ""
 }
 
+func finalDumpsDifferOnlyInNondetKeys(rr *RunResult) bool {
+	var ids []int
+	for id := range rr.FinalDumps {
+		ids = append(ids, id)
+	}
+	sort.Ints(ids)
+	for _, id := range ids[1:] {
+		if !equalLines(withoutNondetKeys(rr.FinalDumps[ids[0]]), withoutNondetKeys(rr.FinalDumps[id])) {
+			return false
+		}
+	}
+	return true
+}
+
 func divergeMessage(d *divergence) string {
 	if d.SameInstant {
 		return fmt.Sprintf("nodes %d and %d have both applied the log up to index %d and, looked at at the same instant and leaving out keys within one second after a deadline, hold different keyspaces (step %d; %s; - node %d, + node %d):\n%s",
@@ -390,6 +404,9 @@ func judgeC07(sc *Scenario, rr *RunResult) (string, string) {
 		return p + "/liveness/" + runClass(rr), rr.Liveness
 	}
 	if m := finalDumpsDiffer(rr); m != "" {
+		if sc.Knobs.Nondet && finalDumpsDifferOnlyInNondetKeys(rr) {
+			return p + "/replicas-diverge-final/nondeterministic-command", m
+		}
 		return p + "/replicas-diverge-final/" + runClass(rr), m
 	}
 	if m := membershipViolated(sc, rr); m != "" {
